@@ -322,6 +322,19 @@ def gen_site_cases(ck, n):
         par = [0, 0] + [rng.randrange(1, i) for i in range(2, nn + 1)]
         nodes = rng.sample(range(1, nn + 1), rng.randrange(1, min(nn, 4) + 1))
         add({"op": "cdom", "parents": par, "nodes": nodes}, "cdom %s %s" % (csv(par), csv(nodes)))
+        # common_dom fold, general form: ids independent of the numbers, forest with 1 (usually) or 2 roots
+        nn = rng.randrange(1, 10)
+        ids = rng.sample(range(1, 40), nn)
+        numv = sorted(rng.sample(range(1, 90), nn))          # ids[k] is numbered numv[k]; parents come earlier
+        nroots = 2 if (nn >= 2 and rng.random() < .12) else 1
+        parents = {}
+        for k in range(nn):
+            parents[str(ids[k])] = None if k < nroots else ids[rng.randrange(0, k)]
+        gnums = {str(ids[k]): numv[k] for k in range(nn)}
+        gnodes = rng.sample(ids, rng.randrange(1, min(nn, 4) + 1))
+        add({"op": "cdomg", "parents": parents, "nums": gnums, "nodes": gnodes},
+            "cdomg %s %s %s" % (",".join("%s=%d" % (k, v) for k, v in parents.items() if v is not None) or "-",
+                                ",".join("%s=%d" % kv for kv in gnums.items()), csv(gnodes)))
         # loop_follow (endless branch)
         kk = rng.randrange(1, 6)
         loop = list(range(1, kk + 1)); rng.shuffle(loop)
@@ -441,10 +454,11 @@ def _run(ck, pool, drv):
         "CPython: dict and list iteration is insertion ordered; a set of int iterates in an order that depends only on "
         "its insertion history (int hash = value); object hashes are addresses (replaced by hook H2: creation counter "
         "+ salt, equality unchanged); str hashes depend on PYTHONHASHSEED",
-        "util.common_dom is the least common ancestor in the dominator tree (commutative, associative): hypothesis of "
-        "place_declarations_order_irrelevant, exercised by the correspondence stream site-cdom",
-        "_eval/_compress of dom_lt are value-pure (path compression does not change returned semi values): "
-        "semi_min_order_irrelevant and the bucket loop rely on it (dominator correctness is property C18)",
+        "place_declarations: `idom` (dom_lt) and `node.num` (compute_rpo) are computed on the same graph and every "
+        "definition node is reachable from the entry — under these the theorems common_dom_ctx_real, "
+        "place_declarations_returns_ncd and place_declarations_order_irrelevant_real need no hypothesis about "
+        "common_dom (it is proved to return the nearest common dominator); exercised by the correspondence streams "
+        "site-cdom and site-cdomg",
     ]
     ck.partial += [
         "whole-pipeline determinism is not a theorem: proved per hash-iteration site (16 remaining sites order-"
@@ -452,6 +466,8 @@ def _run(ck, pool, drv):
         "deterministic given deterministic inputs and is covered by the search only",
         "completeness of the site inventory rests on the AST scan gen/ordersites.py (flow-insensitive set-type "
         "inference inside androguard/decompiler)",
+        "intervals/derived_sequence (control_flow.py) iterate lists in rpo order and are not hash-iteration sites; that "
+        "the interval partition is a function of graph and numbering alone is not stated as a theorem",
     ]
     ck.notes.append("corpus+T+sweep %.0fs; %d distinct-DEX files (%d duplicates skipped)" % (time.time() - t0, len(files), dups))
     if not salted:
